@@ -65,7 +65,7 @@ C("C09", "model_checking",
   "From the empty state of 8 object kinds (threshold Antenna, DipoleAntenna, AntennaSystem with x2 front end, AntennaSystem with a "
   "1-sample-delay front end and lead-in; each noiseless and noisy under an owned random stream) every sequence of 21 actions (8 receive "
   "variants over overlapping/disjoint/nested windows, three kinds of reads, full_waveform / is_hit_during on windows whose ends sit exactly on "
-  "signal edges, make_noise, clear, clear(reset_noise)) is explored to depth 5/4 (quick) and 6/5 (thorough), sharded by first action. After "
+  "signal edges, make_noise, clear, clear(reset_noise)) is explored to depth 5 (noiseless) / 3 (noisy) in the quick tier and 6 / 5 in the thorough tier, sharded by first action. After "
   "every transition: signal/waveform counts, grids, triggered list == filter of cached waveforms in order, is_hit, emptiness after clear, "
   "noiseless waveform == sum of received signals interpolated (through the front end), noise identical at equal absolute times until reset "
   "and different after, full_waveform - noise == noiseless sum.",
